@@ -147,6 +147,12 @@ Proof.
   apply (cnt_upd_notin wrec (fun r => is_live (wpcf r)) f k r l H).
 Qed.
 
+Lemma ncreate_postw : forall l, ncreate (map FPostW l) = 0%nat.
+Proof. unfold ncreate. induction l; simpl; auto. Qed.
+
+Lemma ncreate_app : forall a b, ncreate (a ++ b) = (ncreate a + ncreate b)%nat.
+Proof. unfold ncreate. intros. now rewrite filter_app, app_length. Qed.
+
 Lemma W1b_step : forall s l s', TB s -> (lock s = None -> todo s = []) -> ALock s -> WF s -> W1b s ->
   step s l = Some s' -> W1b s'.
 Proof.
@@ -157,5 +163,11 @@ Proof.
   all: rewrite ?live_upd_same by (cbn [wpcf]; repeat match goal with E : wpcf _ = _ |- _ => rewrite E end; reflexivity).
   all: try (split; assumption).
   all: split; [try pool_inv | try (intros NP; exfalso; eapply NP; eauto; fail)].
+  all: try match goal with E : pl s = PLive ?p |- _ => pose proof (I1 p E) as (J1 & J2 & J3) end.
+  all: try match goal with E : lock s = None |- _ => pose proof (AT E) as TD; rewrite TD in * end.
+  all: outs; subst; cbn [pstarted pmax p_set_items p_set_head p_set_tail p_set_idle p_set_done p_set_started p_set_shut] in *.
+  all: unfold die_effs; cbn [ncreate filter is_create length app] in *.
+  all: try (rewrite ncreate_postw).
+  all: try (repeat split; lia).
   all: show.
 Admitted.
